@@ -702,3 +702,53 @@ def rewrite_live_source_rules(c, rule, single, rewrite):
                  '' if ok else f'the rewrite of workflow_params re-inserts '
                  f'{key} from {norm(v) if v is not None else "?"}, which '
                  f'{f.fq} does not update: a reload puts a stale value back')
+
+
+def outputs_column_by_trigger_rules(c, rule):
+    """The task_outputs.outputs column holds {trigger: message}; for an output
+    completed by `cylc set` the recorded message is a marker, not the task's
+    message.  The loaders that rebuild a proxy's completed outputs from it
+    (restart, history of a task spawned later) therefore go by *trigger*:
+    they iterate the keys and never feed the recorded values to the
+    completion API."""
+    TP = 'task_pool'
+    for qual in ('TaskPool.load_db_task_pool_for_restart',
+                 'TaskPool._load_historical_outputs'):
+        f = c.func(TP, qual)
+        tests = [n for n in c.idx.walk(f.node) if isinstance(n, ast.Call)
+                 and norm(n.func) == 'isinstance' and len(n.args) == 2
+                 and norm(n.args[1]) == 'dict']
+        c.floor(rule, f'{f.fq} :: isinstance(<outputs>, dict)', len(tests),
+                1)
+        for t in tests:
+            var = norm(t.args[0])
+            vals = c.find(f, f'{var}.values()') + c.find(f, f'{var}.items()')
+            c.ob(rule, f'{f.fq} :: the recorded messages of {var} are not '
+                 'read', not vals, c.where(t, f), '' if not vals else
+                 f'{norm(vals[0])}: an output completed by `cylc set` is '
+                 'recorded with a marker message that matches no output and '
+                 'is silently dropped')
+            # iteration over the keys, under the dict test
+            its = [n for n in c.idx.walk(f.node) if isinstance(
+                n, (ast.For, ast.comprehension)) and norm(n.iter) in (
+                var, f'{var}.keys()')]
+            keyed = [n for n in its if c.holds(
+                n.iter if isinstance(n, ast.comprehension) else n,
+                f'isinstance({var}, dict)')]
+            c.floor(rule, f'{f.fq} :: iteration over the triggers of {var}',
+                    len(keyed), 1)
+            for n in keyed:
+                tv = norm(n.target)
+                par = n if isinstance(n, ast.For) else c.idx.parent[id(n)]
+                use = c.find(par, f'_.set_trigger_complete({tv})') + c.find(
+                    par, f'itask.tdef.outputs[{tv}][0]')
+                c.ob(rule, c.key(n if isinstance(n, ast.For) else par, f)[:90]
+                     + ' completes by trigger', bool(use), c.where(par, f),
+                     '')
+            for n in its:
+                if n in keyed:
+                    continue
+                # the other shape: a list of messages
+                tgt = n.iter if isinstance(n, ast.comprehension) else n
+                c.guard(rule, tgt, [f'!isinstance({var}, dict)'], f,
+                        what='plain iteration only for the list shape;')
